@@ -11,6 +11,7 @@ import translate_free
 import translate_kernels
 import translate_glue
 import translate_ctor
+import translate_trig
 
 
 def gen_arith():
@@ -53,4 +54,8 @@ def gen_ctor():
     return translate_ctor.translate(PKG)
 
 
-ALL = [("GenCtor", gen_ctor), ("GenGlue", gen_glue), ("GenKernels", gen_kernels), ("GenFree", gen_free), ("GenParametric", gen_parametric), ("GenDispatch", gen_dispatch), ("GenArith", gen_arith), ("GenParams", gen_params), ("GenHedge", gen_hedge), ("GenKS", gen_ks)]
+def gen_trig():
+    return translate_trig.translate(os.path.join(PKG, "pba/intervals/methods.py"), os.path.join(PKG, "pba/intervals/number.py"))
+
+
+ALL = [("GenTrig", gen_trig), ("GenCtor", gen_ctor), ("GenGlue", gen_glue), ("GenKernels", gen_kernels), ("GenFree", gen_free), ("GenParametric", gen_parametric), ("GenDispatch", gen_dispatch), ("GenArith", gen_arith), ("GenParams", gen_params), ("GenHedge", gen_hedge), ("GenKS", gen_ks)]
